@@ -1,6 +1,9 @@
 import SockModel.Model.ToDosLemmas
 import SockModel.Spec.C06
 import SockModel.Generated.Funcs
+import SockModel.Model.GenTodoWorld
+import SockModel.Generated.Loops
+import SockModel.Basic.TieTactic
 /-!
 # C06  ToDo scheduling: never early, in due order, exactly once, cancellable, shiftable
 
@@ -252,4 +255,114 @@ theorem tie_stepTodos_due (fuel : Nat) (d : Deadline) (s : St) (front : Entry) (
     all_goals omega
   simp only [stepTodos, h, Gen.StepTodos_notDue, hm]
   by_cases hd : front.when - d.now > 0 <;> simp
+end SockModel.Props.C06
+
+/-! ## Source-derived tie, stage 3 (DESIGN.md §0.7.2): `Driver::DriverImpl::StepTodos<Deadline>` as a loop
+
+`SockModel.Gen.StepTodos_Unlimited / _Zero / _Limited` (Generated/Loops.lean) are regenerated on every run from the
+three instantiations of `StepTodos` in the clang AST of src/driver_impl.cpp, over the abstract deque / task interface
+`Gen.TodoWorld` (`front()->when`, `pop_front` after the move, `task->what()`, `empty()`, the clock).  They are run on
+the model's own state (`GenWorld.todoWorld`: the list of `ToDos.St`, task bodies applied by `applyOp`) and tied to
+`ToDos.stepTodos` for EVERY list, every task bodies, every clock value and every fuel (`stepTodosO`: the model with
+the fuel made visible; `stepTodosO_sound` gives `stepTodos` back). -/
+namespace SockModel.Props.C06
+open SockModel SockModel.Deadline SockModel.ToDos SockModel.GenWorld
+
+theorem gen_minDuration (l r : Int) : Gen.MinDuration l r = minDuration l r := by
+  simp only [Gen.MinDuration, minDuration, toMs, nsPerMs]
+  tie_arith
+
+theorem gen_remaining_l (now dl : Int) : Gen.DeadlineLimited_Remaining now dl = (Deadline.limited now dl).remaining := by
+  simp only [Gen.DeadlineLimited_Remaining, Deadline.remaining, toMs, nsPerMs]
+  tie_arith
+
+theorem gen_timeLeft_l (now dl : Int) : Gen.DeadlineLimited_TimeLeft now dl = (Deadline.limited now dl).timeLeft := by
+  simp only [Gen.DeadlineLimited_TimeLeft, Deadline.timeLeft]
+  tie_bool_arith
+
+theorem body_upd (s : St) (t : List Entry) (l : List Event) (id : Nat) :
+    St.body { s with todos := t, log := l } id = s.body id := rfl
+
+/-- what the generated `StepTodos` must return for what the model returns -/
+def TodoRel (g : Gen.Res Int × TSt) (m : Option (Int × St)) : Prop :=
+  match m with
+  | none => g.1 = .halted
+  | some (r, s') => g.1 = .ok r ∧ g.2.st = s'
+
+/-- one iteration of `StepTodos` on the model's state: unfolds the generated loop where it is applied to a
+successor and the model, runs the deque / task operations, splits every `if` of either side (simplifying again after
+each split) and closes every path (the recursive one by the induction hypothesis) -/
+macro "tie_todos_simp" loopdef:ident hs:ident : tactic => `(tactic| (
+  simp only [$loopdef:ident, stepTodosO, $hs:ident, Gen.M.bind, Gen.M.pure, Gen.Clocked_Tick, t_clockNow_eq, t_frontWhen_eq,
+    t_popFront_eq, t_runTask_eq, t_todosEmpty_eq, gen_minDuration, gen_remaining_l, gen_timeLeft_l,
+    Gen.Unlimited_Remaining, Gen.Unlimited_TimeLeft, Gen.ZeroLimited_Remaining, Gen.ZeroLimited_TimeLeft,
+    Deadline.now, Deadline.tick, body_upd]))
+
+macro "tie_todos_step" loopdef:ident ih:ident hs:ident : tactic => `(tactic| (
+  tie_todos_simp $loopdef $hs
+  repeat' (split <;> (try tie_todos_simp $loopdef $hs))
+  all_goals (try simp only [*, if_true, if_false, not_true_eq_false, not_false_eq_true, Bool.false_eq_true])
+  all_goals first
+    | (simp [TodoRel, Deadline.remaining, Deadline.timeLeft, Gen.M.pure]; done)
+    | (simp_all [TodoRel, Deadline.remaining, Deadline.timeLeft, Gen.M.pure]; done)
+    | (exfalso; simp_all; done)
+    | (refine $ih:ident _ _ ?_; simp_all; done)))
+
+theorem stepTodos_limited_loop (fuel : Nat) (d0 dl : Int) : ∀ (n : Nat) (s : St) (c : Option Entry), s.todos ≠ [] →
+    TodoRel (Gen.StepTodos_Limited_loop1 todoWorld fuel d0 dl n s.now ⟨s, c⟩) (stepTodosO n (.limited s.now dl) s) := by
+  intro n
+  induction n with
+  | zero => intro s c _; simp [Gen.StepTodos_Limited_loop1, stepTodosO, TodoRel, Gen.M.halt]
+  | succ n ih =>
+    intro s c hne
+    cases hs : s.todos with
+    | nil => exact absurd hs hne
+    | cons front rest =>
+      tie_todos_step Gen.StepTodos_Limited_loop1 ih hs
+
+theorem stepTodos_unlimited_loop (fuel : Nat) (d0 : Int) : ∀ (n : Nat) (s : St) (c : Option Entry), s.todos ≠ [] →
+    TodoRel (Gen.StepTodos_Unlimited_loop1 todoWorld fuel d0 n s.now ⟨s, c⟩) (stepTodosO n (.unlimited s.now) s) := by
+  intro n
+  induction n with
+  | zero => intro s c _; simp [Gen.StepTodos_Unlimited_loop1, stepTodosO, TodoRel, Gen.M.halt]
+  | succ n ih =>
+    intro s c hne
+    cases hs : s.todos with
+    | nil => exact absurd hs hne
+    | cons front rest =>
+      tie_todos_step Gen.StepTodos_Unlimited_loop1 ih hs
+
+theorem stepTodos_zero_loop (fuel : Nat) (d0 : Int) : ∀ (n : Nat) (s : St) (c : Option Entry), s.todos ≠ [] →
+    TodoRel (Gen.StepTodos_Zero_loop1 todoWorld fuel d0 n s.now ⟨s, c⟩) (stepTodosO n (.zero s.now) s) := by
+  intro n
+  induction n with
+  | zero => intro s c _; simp [Gen.StepTodos_Zero_loop1, stepTodosO, TodoRel, Gen.M.halt]
+  | succ n ih =>
+    intro s c hne
+    cases hs : s.todos with
+    | nil => exact absurd hs hne
+    | cons front rest =>
+      tie_todos_step Gen.StepTodos_Zero_loop1 ih hs
+
+/-- **tie of `Driver::DriverImpl::StepTodos<Deadline>`**, one theorem per instantiation: run on the model's state (any
+list of ToDos, any task bodies, any clock) with the deadline object constructed at the current clock reading, the
+function generated from the C++ source halts exactly when the model's fuel runs out and otherwise returns the model's
+remaining time and leaves the model's state (list, clock, ghost log of the invocations in order) -/
+theorem tie_StepTodos_Limited (fuel : Nat) (dl : Int) (s : St) (c : Option Entry) (hne : s.todos ≠ []) :
+    TodoRel (Gen.StepTodos_Limited todoWorld fuel s.now dl ⟨s, c⟩) (stepTodosO fuel (.limited s.now dl) s) :=
+  stepTodos_limited_loop fuel s.now dl fuel s c hne
+
+theorem tie_StepTodos_Unlimited (fuel : Nat) (s : St) (c : Option Entry) (hne : s.todos ≠ []) :
+    TodoRel (Gen.StepTodos_Unlimited todoWorld fuel s.now ⟨s, c⟩) (stepTodosO fuel (.unlimited s.now) s) :=
+  stepTodos_unlimited_loop fuel s.now fuel s c hne
+
+theorem tie_StepTodos_Zero (fuel : Nat) (s : St) (c : Option Entry) (hne : s.todos ≠ []) :
+    TodoRel (Gen.StepTodos_Zero todoWorld fuel s.now ⟨s, c⟩) (stepTodosO fuel (.zero s.now) s) :=
+  stepTodos_zero_loop fuel s.now fuel s c hne
+
+/-- ... and therefore `ToDos.stepTodos` itself whenever the fuel suffices (`stepTodosO_sound`) -/
+theorem tie_StepTodos_model (fuel : Nat) (timeoutMs : Int) (s : St) (r : Int × St)
+    (h : stepTodosO fuel (Deadline.make timeoutMs s.now) s = some r) :
+    stepTodos fuel (Deadline.make timeoutMs s.now) s = r :=
+  stepTodosO_sound fuel _ s r h
 end SockModel.Props.C06
